@@ -73,23 +73,13 @@ Definition section_size (fs : list field) : Z :=
 Definition WF (isReq : bool) (lim : Z) (fs : list field) : Prop :=
   Forall (field_wf isReq) fs /\ pseudo_first fs /\ pseudo_unique fs /\ cl_wf fs /\ section_size fs <= lim.
 
-(** ** What the code enforces instead (the two places where it is weaker, made explicit). *)
+(** The one thing the implementation demands beyond the RFC: the Content-Length must be
+    representable (strconv.ParseUint(_, 10, 63)). *)
+Definition cl_fits (fs : list field) : Prop :=
+  forall f, In f fs -> is_cl f -> dec_value (fvalue f) < 2 ^ 63.
 
-(** A pseudo-header name may recur provided every earlier occurrence has an EMPTY value. *)
-Definition pseudo_unique_x (fs : list field) : Prop :=
-  forall l1 f l2 g l3, fs = l1 ++ f :: l2 ++ g :: l3 -> pseudo f -> fname f = fname g -> fvalue f = [].
-
-(** Content-Length values are identical and either EMPTY or numeric below 2^63. *)
-Definition cl_x (fs : list field) : Prop :=
-  (forall f, In f fs -> is_cl f -> fvalue f = [] \/ (numeric (fvalue f) /\ dec_value (fvalue f) < 2 ^ 63)) /\
-  (forall f g, In f fs -> In g fs -> is_cl f -> is_cl g -> fvalue f = fvalue g).
-
-Definition WFx (isReq : bool) (lim : Z) (fs : list field) : Prop :=
-  Forall (field_wf isReq) fs /\ pseudo_first fs /\ pseudo_unique_x fs /\ cl_x fs /\ section_size fs <= lim.
-
-(** The side conditions under which the two coincide. *)
+(** Used by the request rules below (presence vs emptiness of pseudo-header fields). *)
 Definition no_empty_pseudo (fs : list field) : Prop := forall f, In f fs -> pseudo f -> fvalue f <> [].
-Definition no_empty_cl (fs : list field) : Prop := forall f, In f fs -> is_cl f -> fvalue f <> [].
 
 (** ** The header handed to net/http: "the obvious function of the section". *)
 
